@@ -535,3 +535,15 @@ Lemma ex_map_modes :
   load_map_mode json_arch default_pols UpdateKeys KInt TInt [(1, 2); (7, 7)]%Z doc = Ok ([(1, 9); (7, 7); (2, 5)]%Z, true) /\
   load_map_mode json_arch default_pols Clean KInt TInt [(1, 2); (7, 7)]%Z doc = Ok ([(2, 5); (1, 9)]%Z, true).
 Proof. vm_compute. repeat split. Qed.
+
+(* a key that occurs twice in an object document: every request for it is answered by the FIRST member of that name *)
+Lemma dkey_eqb_refl k : dkey_eqb k k = true.
+Proof. destruct k; cbn; [apply Z.eqb_refl | apply str_eqb_refl]. Qed.
+
+Lemma member_first k d : forall l1 l2, (forall k' d', In (k', d') l1 -> dkey_eqb k k' = false) ->
+  member k (l1 ++ (k, d) :: l2) = Some d.
+Proof.
+  induction l1 as [|[k1 d1] l1 IH]; intros l2 H; cbn [app member].
+  - rewrite dkey_eqb_refl. reflexivity.
+  - rewrite (H k1 d1 (or_introl eq_refl)). apply IH. intros k' d' Hi. apply (H k' d'). right. exact Hi.
+Qed.
